@@ -7,7 +7,8 @@
     (refinement, by induction over the history).  Only statements, closed by [exact]. *)
 From Coq Require Import List NArith ZArith Bool.
 From Acra Require Import Lib.Bytes Lib.Outcome Gen.KeyStates Model.KeySpec Model.KeystoreV1 Model.KeystoreV2
-  Model.RunKeyRotation Proofs.KeySpec Proofs.KeystoreV1 Proofs.KeystoreV2 Proofs.KeystoreV1Cache.
+  Model.RunKeyRotation Proofs.KeySpec Proofs.KeystoreV1 Proofs.KeystoreV2 Proofs.KeystoreV1Cache
+  Proofs.KeystoreV1Warm.
 Import ListNotations.
 Local Open Scope N_scope.
 
@@ -113,11 +114,45 @@ Theorem C06_v1_after_reopen_equals_uncached :
 Proof. exact after_reopen_equals_uncached. Qed.
 Print Assumptions C06_v1_after_reopen_equals_uncached.
 
-(** NOT PROVED (checked by the implementation oracle and the model replay only): "before the reset
-    the cached keystore never stops offering a surviving key it offered earlier"
-    (cache_never_drops_survivor).  Invariant intended for it: a cached list of historical names always
-    equals the directory (purged on every rotation/destruction, fix_c06_2) and a cached rotated
-    file never changes content, so every surviving rotated key is offered through any cache. *)
+(** "before the reset the cached keystore never stops offering a surviving key it offered earlier":
+    for EVERY history and every cache mode (off, any size, unbounded), a key that a read-all of a
+    slot offered and that still survives at a later read-all of that slot (the slot still has a
+    current key, [hide = true], see the known finding above) is offered by the later one — whatever
+    happened in between (rotations, destructions, other reads, even Reset/Reopen).
+    Premises: the clock increases and the generated versions are distinct (both accepted
+    assumptions of this property); without distinct labels the statement is false in the model.
+    Invariant (Proofs/KeystoreV1Warm.v): a cached list of historical names always equals the
+    directory (purged on every rotation/destruction, fix_c06_2), a cached rotated file never
+    changes content, and a STALE cached current key can only hide a current key that was never
+    offered ([c06_ex_stale_until_reset] shows such a stale read). *)
+Theorem C06_v1_cache_never_drops_survivor :
+  forall (m : cmode) (pre mid : list kop) (s : slot) (l1 : list N) (k : ord),
+  let ops := pre ++ All s :: mid in
+  increasing_from 0 (clock_readings ops) ->
+  NoDup (gen_labels ops) ->
+  nth_error (v1_run m v1_init (ops ++ [All s])) (length pre) = Some (Ok l1) -> In k l1 ->
+  In k (s_all true (spec_state_after true s_init ops s)) ->
+  exists l2, nth_error (v1_run m v1_init (ops ++ [All s])) (length ops) = Some (Ok l2) /\ In k l2.
+Proof. exact cache_never_drops_survivor. Qed.
+Print Assumptions C06_v1_cache_never_drops_survivor.
+
+(** non-vacuity: three versions, a warm read-all, the oldest rotated key destroyed, a second
+    read-all through the same (unbounded, never reset) cache: all premises of the theorem hold
+    with k = 3 and k = 2 (offered by the first read-all, surviving), and both are still offered *)
+Example c06_ex_warm_survivor :
+  let s := (KStoragePair, 1) in
+  let pre := [Gen s 1 10 11; Cur s; Gen s 2 20 21; All s; Gen s 3 30 31; Cur s] in
+  let mid := [Cur s; DestroyRot s 2%Z; ListRot s] in
+  let ops := pre ++ All s :: mid in
+  increasing_from 0 (clock_readings ops) /\ NoDup (gen_labels ops)
+  /\ nth_error (v1_run (Lru 0) v1_init (ops ++ [All s])) (length pre) = Some (Ok [3; 2; 1])
+  /\ s_all true (spec_state_after true s_init ops s) = [3; 2]
+  /\ nth_error (v1_run (Lru 0) v1_init (ops ++ [All s])) (length ops) = Some (Ok [3; 2]).
+Proof.
+  cbn zeta. split; [cbn; repeat split; reflexivity|]. split.
+  - cbn [app gen_labels]. repeat constructor; cbn; intuition discriminate.
+  - repeat split; vm_compute; reflexivity.
+Qed.
 
 (** warm cache, no reset: the scenario that failed before fix_c06_2 (only the new key was offered) *)
 Example c06_ex_warm_cache_rotation :
